@@ -826,7 +826,9 @@ func checkGRPCStatus(headers http.Header, printer internal.Printer) { //nolint:g
 	if statusProto.Code == 0 && len(statusProto.Details) > 0 {
 		printer.Printf("trailers include 'grpc-status-details-bin' value with zero/okay 'grpc-status' and non-empty details")
 	}
-	if msg != nil && statusProto.Message != *msg {
+	// Leading and trailing whitespace of a field value is not significant in HTTP and
+	// may be dropped in transit, so don't count that as a disagreement.
+	if msg != nil && strings.Trim(statusProto.Message, " \t") != strings.Trim(*msg, " \t") {
 		printer.Printf("trailers include 'grpc-status-details-bin' value that disagrees with 'grpc-message' value: %q != %q", statusProto.Message, *msg)
 	}
 }
